@@ -779,7 +779,14 @@ func (fv *funcVerifier) evalSlice(st *State, x *ast.SliceExpr) smt.Term {
 			lo := ev(x.Low, smt.IntLit(0))
 			hi := ev(x.High, n)
 			fv.sliceBounds(st, x, lo, hi, hi, n, false)
-			fv.c.DeclareFun("str_sub", []string{StrSort, smt.Int, smt.Int}, StrSort)
+			if !fv.c.Has("str_sub") {
+				fv.c.DeclareFun("str_sub", []string{StrSort, smt.Int, smt.Int}, StrSort)
+				ss, lo2, hi2, k := smt.Term{S: "ss_s", Sort: StrSort}, smt.Term{S: "ss_lo", Sort: smt.Int}, smt.Term{S: "ss_hi", Sort: smt.Int}, smt.Term{S: "ss_k", Sort: smt.Int}
+				sub := smt.App(StrSort, "str_sub", ss, lo2, hi2)
+				at := smt.App(smt.Int, "str_at", sub, k)
+				fv.c.Axiom("str_sub_at", smt.Forall([]smt.Term{ss, lo2, hi2, k},
+					smt.Implies(smt.And(smt.Ge(k, smt.IntLit(0)), smt.Lt(k, smt.Sub(hi2, lo2))), smt.Eq(at, smt.App(smt.Int, "str_at", ss, smt.Add(lo2, k)))), at), "str_sub")
+			}
 			r := fv.c.Let("sub", smt.App(StrSort, "str_sub", s, lo, hi))
 			fv.assume(st, smt.Eq(smt.App(smt.Int, "str_len", r), smt.Sub(hi, lo)))
 			return r
